@@ -13,10 +13,52 @@ type IntrospectionResolver struct {
 	Variables map[string]interface{}
 }
 
+// SelectedFields lists the fields of a selection set like common.SelectionSetToFields does, without
+// the fields and inline fragments which @skip or @include take out of the answer: what the gateway
+// answers itself never reaches a service that would apply the directives
+func (ir *IntrospectionResolver) SelectedFields(selectionSet ast.SelectionSet) []*ast.Field {
+	var result []*ast.Field
+	for _, s := range selectionSet {
+		switch s := s.(type) {
+		case *ast.Field:
+			if ir.isLeftOut(s.Directives) {
+				continue
+			}
+			result = append(result, s)
+		case *ast.InlineFragment:
+			if ir.isLeftOut(s.Directives) {
+				continue
+			}
+			result = append(result, ir.SelectedFields(s.SelectionSet)...)
+		}
+	}
+	return result
+}
+
+func (ir *IntrospectionResolver) isLeftOut(directives ast.DirectiveList) bool {
+	for _, d := range directives {
+		if d.Name != "skip" && d.Name != "include" {
+			continue
+		}
+		arg := d.Arguments.ForName("if")
+		if arg == nil || arg.Value == nil {
+			continue
+		}
+		v, err := arg.Value.Value(ir.Variables)
+		if err != nil {
+			continue
+		}
+		if cond, ok := v.(bool); ok && cond == (d.Name == "skip") {
+			return true
+		}
+	}
+	return false
+}
+
 func (ir *IntrospectionResolver) ResolveIntrospectionFields(selectionSet ast.SelectionSet, schema *ast.Schema) map[string]interface{} {
 	introspectionResult := make(map[string]interface{})
 	var isIntrospection bool
-	for _, f := range common.SelectionSetToFields(selectionSet, nil) {
+	for _, f := range ir.SelectedFields(selectionSet) {
 		switch f.Name {
 		case "__type":
 			name := f.Arguments.ForName("name").Value.Raw
@@ -44,7 +86,7 @@ func (ir *IntrospectionResolver) ResolveIntrospectionFields(selectionSet ast.Sel
 func (ir *IntrospectionResolver) resolveSchema(schema *ast.Schema, selectionSet ast.SelectionSet) map[string]interface{} {
 	result := make(map[string]interface{})
 
-	for _, f := range common.SelectionSetToFields(selectionSet, nil) {
+	for _, f := range ir.SelectedFields(selectionSet) {
 		switch f.Name {
 		case "__typename":
 			result[f.Alias] = "__Schema"
@@ -102,7 +144,7 @@ func (ir *IntrospectionResolver) resolveType(schema *ast.Schema, typ *ast.Type, 
 	// recursively call in "ofType"
 
 	if typ.NonNull {
-		for _, f := range common.SelectionSetToFields(selectionSet, nil) {
+		for _, f := range ir.SelectedFields(selectionSet) {
 			switch f.Name {
 			case "__typename":
 				result[f.Alias] = "__Type"
@@ -122,7 +164,7 @@ func (ir *IntrospectionResolver) resolveType(schema *ast.Schema, typ *ast.Type, 
 	}
 
 	if typ.Elem != nil {
-		for _, f := range common.SelectionSetToFields(selectionSet, nil) {
+		for _, f := range ir.SelectedFields(selectionSet) {
 			switch f.Name {
 			case "__typename":
 				result[f.Alias] = "__Type"
@@ -142,7 +184,7 @@ func (ir *IntrospectionResolver) resolveType(schema *ast.Schema, typ *ast.Type, 
 		return nil
 	}
 
-	for _, f := range common.SelectionSetToFields(selectionSet, nil) {
+	for _, f := range ir.SelectedFields(selectionSet) {
 		switch f.Name {
 		case "__typename":
 			result[f.Alias] = "__Type"
@@ -230,7 +272,7 @@ func (ir *IntrospectionResolver) resolveType(schema *ast.Schema, typ *ast.Type, 
 						continue
 					}
 				}
-				enums = append(enums, resolveEnumValue(e, f.SelectionSet))
+				enums = append(enums, ir.resolveEnumValue(e, f.SelectionSet))
 			}
 			result[f.Alias] = enums
 		case "inputFields":
@@ -264,7 +306,7 @@ func (ir *IntrospectionResolver) resolveFieldOfType(schema *ast.Schema, field *a
 
 	deprecated, deprecatedReason := hasDeprecatedDirective(field.Directives)
 
-	for _, f := range common.SelectionSetToFields(selectionSet, nil) {
+	for _, f := range ir.SelectedFields(selectionSet) {
 		switch f.Name {
 		case "__typename":
 			result[f.Alias] = typename
@@ -300,7 +342,7 @@ func (ir *IntrospectionResolver) resolveFieldOfType(schema *ast.Schema, field *a
 func (ir *IntrospectionResolver) resolveDirective(schema *ast.Schema, directive *ast.DirectiveDefinition, selectionSet ast.SelectionSet) map[string]interface{} {
 	result := make(map[string]interface{})
 
-	for _, f := range common.SelectionSetToFields(selectionSet, nil) {
+	for _, f := range ir.SelectedFields(selectionSet) {
 		switch f.Name {
 		case "__typename":
 			result[f.Alias] = "__Directive"
@@ -343,7 +385,7 @@ func hasDeprecatedDirective(directives ast.DirectiveList) (bool, *string) {
 func (ir *IntrospectionResolver) resolveInputValue(schema *ast.Schema, arg *ast.ArgumentDefinition, selectionSet ast.SelectionSet) map[string]interface{} {
 	result := make(map[string]interface{})
 
-	for _, f := range common.SelectionSetToFields(selectionSet, nil) {
+	for _, f := range ir.SelectedFields(selectionSet) {
 		switch f.Name {
 		case "__typename":
 			result[f.Alias] = "__InputValue"
@@ -365,12 +407,12 @@ func (ir *IntrospectionResolver) resolveInputValue(schema *ast.Schema, arg *ast.
 	return result
 }
 
-func resolveEnumValue(enum *ast.EnumValueDefinition, selectionSet ast.SelectionSet) map[string]interface{} {
+func (ir *IntrospectionResolver) resolveEnumValue(enum *ast.EnumValueDefinition, selectionSet ast.SelectionSet) map[string]interface{} {
 	result := make(map[string]interface{})
 
 	deprecated, deprecatedReason := hasDeprecatedDirective(enum.Directives)
 
-	for _, f := range common.SelectionSetToFields(selectionSet, nil) {
+	for _, f := range ir.SelectedFields(selectionSet) {
 		switch f.Name {
 		case "__typename":
 			result[f.Alias] = "__EnumValue"
